@@ -153,6 +153,28 @@ type KnownFinding struct {
 	Witness  string `json:"witness"` // replay file relative to /verif
 	What     string `json:"what"`
 	Commit   string `json:"commit,omitempty"`
+	// Exclude lists generator input classes switched off while this finding
+	// is known, so that exploration does not keep rediscovering variants
+	Exclude []string `json:"exclude,omitempty"`
+}
+
+var known []KnownFinding
+
+// SetKnown installs the known findings (done once at start-up).
+func SetKnown(k []KnownFinding) { known = k }
+
+// Excluded returns the input classes excluded for an engine by findings with
+// status "known".
+func Excluded(engine string) map[string]bool {
+	out := map[string]bool{}
+	for _, k := range known {
+		if k.Status == "known" && k.Engine == engine {
+			for _, e := range k.Exclude {
+				out[e] = true
+			}
+		}
+	}
+	return out
 }
 
 func LoadKnown(path string) ([]KnownFinding, error) {
@@ -182,7 +204,7 @@ func MatchKnown(known []KnownFinding, prop, engine string, v Violation) *KnownFi
 		if k.Engine != "" && k.Engine != engine {
 			continue
 		}
-		if k.Sig != "" && (v.Sig == k.Sig || strings.HasPrefix(v.Sig, k.Sig+"|")) {
+		if k.Sig != "" && sigMatch(k.Sig, v.Sig) {
 			return k
 		}
 	}
@@ -284,4 +306,17 @@ func Minimise(e Engine, sc interface{}, v Violation, first *Outcome, budget int)
 	}
 	bestOut.Probes = nil
 	return best, bestOut, used
+}
+
+// sigMatch: exact match, prefix match at a '|' boundary, or a pattern with
+// one '*' wildcard (which does not cross '|').
+func sigMatch(pat, sig string) bool {
+	if i := strings.IndexByte(pat, '*'); i >= 0 {
+		pre, post := pat[:i], pat[i+1:]
+		if !strings.HasPrefix(sig, pre) || !strings.HasSuffix(sig, post) || len(sig) < len(pre)+len(post) {
+			return false
+		}
+		return !strings.Contains(sig[len(pre):len(sig)-len(post)], "|")
+	}
+	return sig == pat || strings.HasPrefix(sig, pat+"|")
 }
